@@ -1,5 +1,7 @@
 /* C09.depth.* : depth guards of the front end.
  *   typechecker.c : check_expression / check_statement  (g_check_expr_depth, g_check_stmt_depth)
+ *   parser.c      : parse_block  (p->recursion_depth)   [bounded stand-in, see below; parse_expression: not brought in,
+ *                   see obligations/c09.py undecided_part]
  * The real file is included verbatim; ONE function is enforced per obligation and everything it
  * calls is replaced by a contract.  The counters are `static`: the contracts name them through
  * tentative definitions placed before the #include (C11 6.9.2: same object). */
@@ -69,3 +71,78 @@ void h_check_statement(void)
     VERIF_COVER(t != TYPE_VOID);
 }
 #endif
+
+#ifdef DEPTH_PARSER
+/* parse_block: balanced inc/dec of p->recursion_depth on every return path, no recursion (parse_statement)
+ * with the counter above the limit, NULL when entered at the limit.  The function's one loop grows the
+ * `statements` array with realloc and counts statements without any bound that could be stated without progress
+ * contracts for all 39 parser functions (DESIGN C09.parse.progress, not built), so it gets NO loop contract
+ * here: it is unwound DEPTH_UNWIND-1 times (bounded stand-in, never counted as proved).  The counter is not
+ * touched by the loop body except on its two `return NULL` paths, which the unwinding covers. */
+#define LIM_P 1000      /* MAX_RECURSION_DEPTH; harness asserts the two agree */
+#define P_ERRFIELDS(p) __CPROVER_object_upto((char *)&(p)->error_count, sizeof(Stage1Parser) - __builtin_offsetof(Stage1Parser, error_count))
+
+static Token *current_token(Stage1Parser *p)
+__CPROVER_requires(p != NULL)
+__CPROVER_assigns(p->pos)                    /* the real one clamps a corrupt position */
+__CPROVER_ensures(__CPROVER_return_value == NULL || __CPROVER_is_fresh(__CPROVER_return_value, sizeof(Token)));
+
+/* variadic: DFCC 6.11 checks a replaced variadic callee's assigns clause against a wrong write set (same defect as
+ * seen with snprintf in the lexer unit), so the frame is given as empty; the error fields it really writes are
+ * not read by parse_block and not mentioned in the property checked here */
+static void parser_error(Stage1Parser *p, int line, int column, const char *fmt, ...)
+__CPROVER_requires(p != NULL)
+__CPROVER_assigns()
+__CPROVER_ensures(1);
+
+static void advance(Stage1Parser *p)
+__CPROVER_requires(p != NULL)
+__CPROVER_assigns(p->pos)
+__CPROVER_ensures(1);
+
+/* the bound of the stand-in: the block's closing brace (or EOF) is seen at the latest by the
+ * 2*(DEPTH_UNWIND-1)-th call, i.e. the block holds at most DEPTH_UNWIND-2 statements */
+unsigned __verif_nmatch;
+static bool match(Stage1Parser *p, TokenType type)
+__CPROVER_requires(p != NULL)
+__CPROVER_assigns(__verif_nmatch)
+__CPROVER_ensures(__verif_nmatch == __CPROVER_old(__verif_nmatch) + 1)
+__CPROVER_ensures(__verif_nmatch >= 2 * (DEPTH_UNWIND - 1) - 1 ==> __CPROVER_return_value == 1);
+
+static bool expect(Stage1Parser *p, TokenType type, const char *msg)
+__CPROVER_requires(p != NULL)
+__CPROVER_assigns(p->pos, P_ERRFIELDS(p))
+__CPROVER_ensures(1);
+
+/* the recursion: entered only with the counter within the limit; returns with the counter restored
+ * (assumed for the callee, proved for parse_block: induction over the call depth) */
+static ASTNode *parse_statement(Stage1Parser *p)
+__CPROVER_requires(p != NULL && 1 <= p->recursion_depth && p->recursion_depth <= LIM_P)
+__CPROVER_assigns(p->pos, P_ERRFIELDS(p))
+__CPROVER_ensures(__CPROVER_return_value == NULL || __CPROVER_is_fresh(__CPROVER_return_value, sizeof(ASTNode)));
+
+static ASTNode *create_node(ASTNodeType type, int line, int column)
+__CPROVER_requires(1)
+__CPROVER_assigns()
+__CPROVER_ensures(__CPROVER_is_fresh(__CPROVER_return_value, sizeof(ASTNode)));
+
+static ASTNode *parse_block(Stage1Parser *p)
+__CPROVER_requires(VERIF_FRESH(p, sizeof(Stage1Parser)))
+__CPROVER_requires(0 <= p->recursion_depth && p->recursion_depth <= LIM_P)
+__CPROVER_requires(__verif_nmatch == 0)
+__CPROVER_assigns(p->pos, p->recursion_depth, P_ERRFIELDS(p), __verif_nmatch)
+__CPROVER_ensures(p->recursion_depth == __CPROVER_old(p->recursion_depth))
+__CPROVER_ensures(__CPROVER_old(p->recursion_depth) == LIM_P ==> __CPROVER_return_value == NULL);
+
+#include "parser.c"
+
+void h_parse_block(void)
+{
+    __CPROVER_assert(MAX_RECURSION_DEPTH == LIM_P, "C09.depth limit constant of the contract equals MAX_RECURSION_DEPTH");
+    Stage1Parser *p;
+    ASTNode *n = parse_block(p);
+    VERIF_COVER(n == NULL);
+    VERIF_COVER(n != NULL);
+}
+#endif
+
